@@ -10,6 +10,7 @@ import (
 	"fmt"
 	"math/big"
 	"math/rand"
+	"runtime"
 	"sort"
 	"strings"
 	"sync"
@@ -288,6 +289,24 @@ type dudChain struct {
 	cfg    *params.ChainConfig
 	db     ethdb.Database
 	engine consensus.Engine
+	// headers fetched on behalf of the BLOCKHASH opcode (caller = core.GetHashFn's closure, possibly inlined into NewEVMBlockContext)
+	mu        sync.Mutex
+	blockhash map[common.Hash]struct{}
+}
+
+func calledFromGetHashFn() bool {
+	var pcs [12]uintptr
+	n := runtime.Callers(2, pcs[:])
+	frames := runtime.CallersFrames(pcs[:n])
+	for {
+		f, more := frames.Next()
+		if strings.Contains(f.Function, "GetHashFn") || strings.HasSuffix(f.Function, "vm.opBlockhash") {
+			return true
+		}
+		if !more {
+			return false
+		}
+	}
 }
 
 func (c *dudChain) Config() *params.ChainConfig               { return c.cfg }
@@ -296,24 +315,30 @@ func (c *dudChain) CurrentHeader() *types.Header              { return nil }
 func (c *dudChain) GetHeaderByNumber(uint64) *types.Header    { return nil }
 func (c *dudChain) GetHeaderByHash(common.Hash) *types.Header { return nil }
 func (c *dudChain) GetHeader(h common.Hash, n uint64) *types.Header {
+	if calledFromGetHashFn() {
+		c.mu.Lock()
+		c.blockhash[h] = struct{}{}
+		c.mu.Unlock()
+	}
 	return rawdb.ReadHeader(c.db, h, n)
 }
 
-// replay returns the set of database keys read while executing task over the witness.
-func replay(cfg *params.ChainConfig, task *types.Block, w *stateless.Witness) (reads map[string]struct{}, root, rroot common.Hash, err error) {
+// replay returns the set of database keys read while executing task over the witness and
+// the hashes of the headers that BLOCKHASH asked for.
+func replay(cfg *params.ChainConfig, task *types.Block, w *stateless.Witness) (reads map[string]struct{}, bh map[common.Hash]struct{}, root, rroot common.Hash, err error) {
 	db := &recDB{Database: w.MakeHashDB(), reads: map[string]struct{}{}}
 	st, err := state.New(w.Root(), state.NewDatabase(triedb.NewDatabase(db, triedb.HashDefaults), state.NewCodeDB(db)))
 	if err != nil {
-		return nil, common.Hash{}, common.Hash{}, err
+		return nil, nil, common.Hash{}, common.Hash{}, err
 	}
-	chain := &dudChain{cfg: cfg, db: db, engine: beacon.New(ethash.NewFaker())}
+	chain := &dudChain{cfg: cfg, db: db, engine: beacon.New(ethash.NewFaker()), blockhash: map[common.Hash]struct{}{}}
 	res, err := core.NewStateProcessor(chain).Process(context.Background(), task, st, nil, nil, vm.Config{}, nil)
 	if err != nil {
-		return nil, common.Hash{}, common.Hash{}, err
+		return nil, nil, common.Hash{}, common.Hash{}, err
 	}
 	rroot = types.DeriveSha(res.Receipts, trie.NewStackTrie(nil))
 	root = st.IntermediateRoot(cfg.Rules(task.Number(), task.Difficulty().Sign() == 0, task.Time()))
-	return db.reads, root, rroot, st.Error()
+	return db.reads, chain.blockhash, root, rroot, st.Error()
 }
 
 type element struct {
@@ -495,7 +520,7 @@ func runCase(r *vrt.Run, ci int) {
 		r.Count("full_witness_ok", 1)
 
 		// read monitor
-		reads, mroot, mrroot, merr := replay(s.cfg, task, w)
+		reads, bhReads, mroot, mrroot, merr := replay(s.cfg, task, w)
 		if merr != nil || mroot != block.Root() || mrroot != block.ReceiptHash() {
 			r.Inconclusive("read monitor replay disagrees with the header on chain %d block %d: err=%v", ci, bi+1, merr)
 			continue
@@ -544,19 +569,40 @@ func runCase(r *vrt.Run, ci int) {
 			}
 			switch outcome {
 			case "different":
-				// diagnosis: does the state database remember a read error that nobody looked at?
+				// Fingerprints by root cause:
+				//  :header            an ancestor header that BLOCKHASH fetched is missing; GetHashFn
+				//                     maps it to the zero hash, there is no error channel (known finding)
+				//  :header:other      a removed header that BLOCKHASH did not fetch changes the result
+				//  :<kind>:unreported a missing node/code left an error in the StateDB that
+				//                     ExecuteStateless did not turn into a failure
+				//  :<kind>:silent     no error anywhere, yet a different result
+				fp := "removal-different-result:" + e.kind
 				dberr := "n/a"
-				if _, _, _, e := replay(s.cfg, task, w2); e != nil {
-					dberr = e.Error()
-					r.Count("removal_different_with_unchecked_statedb_error", 1)
+				if e.kind == "header" {
+					hh := common.HexToHash(e.key)
+					if _, byBlockhash := bhReads[hh]; !byBlockhash {
+						fp += ":other"
+					}
+					ew["fetched_by_blockhash"] = fp == "removal-different-result:header"
+				} else {
+					if _, _, _, _, e2 := replay(s.cfg, task, w2); e2 != nil {
+						dberr = e2.Error()
+						fp += ":unreported"
+						r.Count("removal_different_with_unchecked_statedb_error", 1)
+					} else {
+						fp += ":silent"
+					}
 				}
 				ew["statedb_error_after_execution"] = dberr
-				r.Violation("removal-different-result:"+e.kind, fmt.Sprintf("ExecuteStateless without one %s element returns no error but state root %x / receipt root %x instead of %x / %x (element read by the monitor: %v; StateDB.Error() after an equivalent replay: %s)", e.kind, root2, rroot2, block.Root(), block.ReceiptHash(), read, dberr), ew)
+				r.Violation(fp, fmt.Sprintf("ExecuteStateless without one %s element returns no error but state root %x / receipt root %x instead of %x / %x (element read by the monitor: %v; StateDB.Error() after an equivalent replay: %s)", e.kind, root2, rroot2, block.Root(), block.ReceiptHash(), read, dberr), ew)
 			case "same":
-				// Relaxation (documented in VALIDATION.md): an element that is read but whose
-				// absence does not change the result (e.g. the code of a contract that only
-				// STOPs, a node on the path of a value that is overwritten) is not "required" in
-				// the sense of the property statement; counted, not reported.
+				// A trie node or code blob that the execution reads is gone, yet execution neither
+				// failed nor changed its result: the read error was swallowed somewhere (the design
+				// counts a read element as needed). Headers are exempt: BLOCKHASH has no error
+				// channel (see the known finding) and its value may be irrelevant to the result.
+				if read && e.kind != "header" {
+					r.Violation("removal-of-read-element-unnoticed:"+e.kind, fmt.Sprintf("ExecuteStateless succeeds with the header's roots although a %s element that the execution reads was removed from the witness", e.kind), ew)
+				}
 			}
 			r.Eval(fmt.Sprintf("%s/%s/list=%v/rm=%s/%s/%s", fork, scheme, withList, e.kind, rd, outcome))
 		}
@@ -573,8 +619,8 @@ func run(r *vrt.Run) {
 		n = r.N(6, 100)
 	}
 	runCase(r, -1)
-	vrt.Par(n, 8, func(i int) { runCase(r, i) })
-	if !r.Violated() {
+	vrt.Par(n, 0, func(i int) { runCase(r, i) })
+	{ // coverage obligations hold independently of the known finding firing
 		r.Require("full_witness_ok", int64(n*2))
 		r.Require("removals_state", int64(n*40))
 		r.Require("removals_code", int64(n))
